@@ -3,7 +3,7 @@
 # closed is a blocked read: it ends as a network error flagged as a timeout; the failing operation then does
 # exactly one more exchange - QUIT - and leaves the connection broken and shut).  What a theorem cannot
 # exhibit is the clock: the check runs the real clients against a peer that stalls at every dialogue
-# position and measures.  The tokio client has no I/O timeout at all (known finding F20).
+# position and measures.  (The tokio client had no I/O deadline at all: finding F20, repaired.)
 import json, re
 from common import *
 from smtp import *
@@ -124,8 +124,8 @@ def run(ctx):
                     obad.append((i, fl, "an operation succeeded on the connection after the stall: %s" % ires[j], r))
                 if ms[j] > 60:
                     obad.append((i, fl, "an operation on the broken connection took %d ms" % ms[j], r))
-            # model correspondence (sync): same results incl. the timeout flag, same client octets
-            if fl == "sync" and pm is not None:
+            # model correspondence (both flavours): same results incl. the timeout flag, same client octets
+            if pm is not None:
                 exp = list(pm[0])
                 if not exp[0].startswith("conn,"):
                     exp = [exp[0]] + ["skip"] * (len(ires) - 1)
@@ -221,7 +221,7 @@ def run(ctx):
             obad.append((-1, sc["flavor"], "server stopped reading: send took %d ms with timeout %d ms" % (ms, T), r))
     ctx.cov["oracle"]["stall_matrix_timing"] = {"connection_level": len(impl), "transport_level": len(pscs), "write_stall": len(wscs), "failures": len(obad), "known_class_hits": hits,
                                                 "bounds": "T - 25 ms <= elapsed <= 2T + %d ms (4T + slack when a stalled NOOP probe is followed by a fresh connection)" % SLACK}
-    ctx.cov["correspondence"]["client_model_on_stall_scripts"] = {"scenarios": len(scs), "flavor": "sync", "disagreements": len(cbad)}
+    ctx.cov["correspondence"]["client_model_on_stall_scripts"] = {"scenarios": len(scs), "flavors": ["sync", "tokio"], "disagreements": len(cbad)}
     ctx.cov["rule"] = ("stall positions greeting, EHLO, AUTH PLAIN, both LOGIN challenges and the final AUTH reply, MAIL, each of two RCPT, DATA, end-of-data, NOOP, QUIT x {nothing, half a reply line, first line of a multi-line reply} x T in %s ms, "
                        "sync and tokio connections (the reply held back 5T+300 ms); transports with max_size 0 and 2: the 2nd GREET/EHLO/MAIL/RCPT/DATA/end-of-data and the 1st NOOP probe stalled, four sends; a server that stops reading a 24 MB message. "
                        "Judged: error flagged as timeout, elapsed within [T, 2T+slack], connection broken and dead afterwards, next send succeeds, stalled connection carries no further MAIL. non-trivial = distinct (position, kind, T, flavor)") % Ts
